@@ -13,6 +13,7 @@ import (
 	"encoding/binary"
 	"os"
 	"sync"
+	"sync/atomic"
 
 	"github.com/synnaxlabs/x/io/fs"
 	"github.com/synnaxlabs/x/telem"
@@ -24,9 +25,12 @@ type indexPersist struct {
 	p   *pointerPersist
 	idx *index
 	Config
-	// prepared counts the snapshots taken by prepare (guarded by the index lock);
-	// written is the number of the newest snapshot on disk (guarded by p's lock).
-	prepared, written uint64
+	// prepared counts the snapshots taken by prepare. Snapshots are taken with the index
+	// locked, but callers that only read the index (a closing writer) hold the lock
+	// shared, so the count is atomic. written is the number of the newest snapshot on
+	// disk (guarded by p's lock).
+	prepared atomic.Uint64
+	written  uint64
 }
 
 func openIndexPersist(idx *index, fs fs.FS) (*indexPersist, error) {
@@ -43,10 +47,9 @@ func (ip *indexPersist) load() ([]pointer, error) {
 func (ip *indexPersist) prepare(start int) func() error {
 	pointerEncoded := ip.p.encode(start, ip.idx.mu.pointers)
 	lenOfPointers := len(ip.idx.mu.pointers)
-	// prepare is called with the index locked, so snapshots are numbered in the
-	// order they were taken.
-	ip.prepared++
-	seq := ip.prepared
+	// prepare is called with the index locked, so snapshots are numbered in the order
+	// they were taken (snapshots taken under a shared lock see the same pointers).
+	seq := ip.prepared.Add(1)
 
 	return func() error {
 		ip.p.Lock()
